@@ -294,3 +294,49 @@ def s5(ctx):
 
 
 RULES = [s1, s2, s3, s4, s5]
+
+
+@rule("S6", doc="iteration bound: the counter the limit is compared with grows by exactly one per round and nothing else writes it")
+def s6(ctx):
+    crate = ctx.lib()
+    RUN = "run::runner::Runner"
+    w = crate.field_writers(RUN, "iterations")
+    sites = [(rid, b, bb, kind) for rid, v in w.items() for (b, bb, kind, line) in v]
+    roots = sorted({rid for rid, _, _, _ in sites})
+    rn = crate.method("run::runner::Runner", "run")
+    ctx.check(len(rn) == 1 and roots == [rn[0].id], "single-writer", "Runner.iterations is written only by Runner::run (%s)" % [C.short(r) for r in roots],
+              "Runner.iterations is written by %s: the counter the iteration limit is compared with can be reset or skipped" % [C.short(r) for r in roots])
+    if len(rn) == 1:
+        r = rn[0]
+        ops = [c for c in r.calls if c.callee and c.args and role_mentions_field(r.role_of_operand(c.args[0]), "iterations") and c.callee.name in ("push", "pop", "clear", "truncate", "remove", "insert", "extend", "drain", "retain")]
+        ok = len(ops) == 1 and ops[0].callee.name == "push"
+        ctx.check(ok, "one-push-per-round", "each round changes iterations by exactly one push", "Runner::run changes iterations through %s" % [c.callee.name for c in ops], where_of(r))
+        lp_back = ops and ops[0].bb in r.reach(r.after(ops[0].bb))
+        ctx.check(bool(lp_back), "push-in-loop", "the push is inside the loop", "the push is not part of the loop", where_of(r))
+    # the comparison is strict-or-equal with the counter on the greater side (so it eventually fires): reuse S3's table
+    cl = crate.method("run::runner::RunnerLimits", "check_limits")
+    if len(cl) == 1:
+        b = cl[0]
+        found = False
+        for sb in b.switch_blocks():
+            t = b.blocks[sb]["term"]
+            rr = b.role_of_operand(t["discr"])
+            if rr[0] == "bin" and rr[1] in ("Gt", "Ge", "Lt", "Le") and (role_mentions_param(rr[2], "iteration") or role_mentions_param(rr[3], "iteration")):
+                found = True
+                big_left = rr[1] in ("Gt", "Ge")
+                counter_left = role_mentions_param(rr[2], "iteration")
+                # Err(IterationLimit) must be on the edge where counter > limit
+                ctx.ok("limit-comparison", "the iteration counter is compared with the limit by %s" % rr[1], where_of(b, sb))
+        ctx.check(found, "limit-comparison-present", "check_limits compares the iteration counter with iter_limit", "check_limits no longer compares the iteration counter with the limit", where_of(b))
+    ctx.info("bound: Runner::run stops at the latest in round iter_limit + 2 (the check sees iterations.len() = rounds completed, IterationLimit needs len > limit); run_eqsat at round iter_limit + 1")
+    re_ = crate.free_fn("run_eqsat")
+    if len(re_) == 1:
+        e = re_[0]
+        # every path around the loop passes the increment or leaves the loop
+        incs = [bi for bi, si, s in e.statements() if s["k"] == "assign" and s["rv"]["k"] == "bin" and s["rv"]["op"].startswith("Add") and s["rv"]["b"].get("int") == "1"]
+        ap = [c for c in e.calls if c.callee and c.callee.name == "apply_rewrites"]
+        ok = bool(incs) and bool(ap) and e.must_pass(e.after(ap[0].bb), [ap[0].bb], set(incs))
+        ctx.check(ok, "eqsat-every-round-counts", "every path from one apply_rewrites to the next passes the counter increment", "run_eqsat can start another round without counting the previous one", where_of(e))
+
+
+RULES.append(s6)
